@@ -11,6 +11,7 @@ import DW.Driver.C18
 import DW.Driver.C19
 import DW.Driver.Alias
 import DW.Driver.C04
+import DW.Driver.GenDump
 
 open Lean DW.Driver
 
@@ -30,6 +31,7 @@ def dispatch (j : Json) : Except String Json := do
   | "c19" => handleC19 j
   | "c08" => handleC08 j
   | "c04" => handleC04 j
+  | "gendump" => handleGenDump j
   | x => throw s!"unknown op {x}"
 
 def handleLine (line : String) : String :=
